@@ -176,7 +176,10 @@ def who_rule(chk, prog, roles):
         if em == roles.driver:
             continue
         callers = [c for c in EFF.callers_of(g, em) if c != em]       # a retry written as a tail call is not another caller
-        chk.require(callers == [roles.driver], "WHO", "WHO/callers/%s" % em, loc_str(prog.fn(em)),
+        pads = roles.padder in g.get(em, ())
+        # an emitter that never pads may also be the building block of another emitter; the padding one is reached from the driver only
+        ok = callers == [roles.driver] or (not pads and set(callers) <= {roles.driver} | set(roles.emitters) and roles.driver in callers)
+        chk.require(ok, "WHO", "WHO/callers/%s" % em, loc_str(prog.fn(em)),
                     "%s is called only from the per-line driver" % em, "callers %s" % callers)
 
 
